@@ -189,3 +189,14 @@ let job_tsem (job : Sx.t) : string =
       | Util.Crash -> "(crash)"
       | Util.OutOfFuel -> "(nofuel)") (Sx.args (Sx.field job "inss")) in
   String.concat " " results
+
+(* which theorems cover this program: (imp b) = main is in the imperative scalar fragment on which
+   TSem = Sem.v is proved (Fragment.in_imp_fragment_sound); (kfree ..) = the constness run of the lowering
+   succeeds, i.e. the program is data movement and its circuit has zero AND gates
+   (FreeLower.data_movement_zero_and) *)
+let job_frag (job : Sx.t) : string =
+  let p = program (Stdlib.List.hd (Sx.args (Sx.field job "ast"))) in
+  let imp = Fragment.in_imp_fragment lfuel p in
+  let k = match FreeLower.klower_main lfuel p with
+    | Util.Ok _ -> "ok" | Util.Crash -> "crash" | Util.OutOfFuel -> "nofuel" in
+  Printf.sprintf "(imp %d) (kfree %s)" (if imp then 1 else 0) k
